@@ -430,6 +430,7 @@ func c05InterpConf(c c05ConfCase) (v kit.Verdict) {
 	o2 := c05Call(func() error { return conf.LoadFromJsonBytes([]byte(j2), t2.Interface()) })
 	o3 := c05Call(func() error { return conf.LoadFromYamlBytes([]byte(y2), t3.Interface()) })
 	o := c05NewOracle()
+	o.canonKeys = true
 	res := reflect.Value{}
 	if o1.Panic == nil && o1.Err == nil {
 		res = t1.Elem()
